@@ -315,7 +315,7 @@ def _c_block(o: Out, block, lv: int, uid, lang: str):
 
 
 def render(lang: str, funcs: list, indent: str = "    ", gap: int = 1, prefix: str = "u") -> tuple:
-    """funcs: list of {"name", "style": func|method|arrow, "block", "async": bool}.
+    """funcs: list of {"name", "style": func|method|arrow|fexpr|generator (the last three: ts/js), "block", "async": bool}.
 
     Returns (text, facts) where facts[name] = {"line": header line (1-based), "depth": d, "style":...}.
     """
@@ -365,6 +365,14 @@ def render(lang: str, funcs: list, indent: str = "    ", gap: int = 1, prefix: s
                 o.emit(0, "const %s = (%s)%s => {" % (f["name"], params, ret))
                 _c_block(o, f["block"], 1, uid, lang)
                 o.emit(0, "};")
+            elif f["style"] == "fexpr":  # function expression bound to a name
+                o.emit(0, "const %s = function (%s)%s {" % (f["name"], params, ret))
+                _c_block(o, f["block"], 1, uid, lang)
+                o.emit(0, "};")
+            elif f["style"] == "generator":
+                o.emit(0, "function* %s(%s) {" % (f["name"], params))
+                _c_block(o, f["block"], 1, uid, lang)
+                o.emit(0, "}")
             else:
                 o.emit(0, "%sfunction %s(%s)%s {" % ("async " if f.get("async") else "", f["name"], params,
                                                      (": Promise<void>" if ty else "") if f.get("async") else ret))
